@@ -56,6 +56,8 @@ def sessions(ctx, rep, cfg):
     for k in range(n):
         g = gen.SessionGen(ctx.seed * 7919 + k, nconn=(1, 2), nmsg=(20, 60), junk=0.05, core=None)
         yield g.session(), {'dialect': rnd.choice(['old', 'new']), 'mark': rnd.choice(['.', ','])}, 'random'
+    from props import sessbase
+    yield from sessbase.rich_sessions(ctx, 1000003, ctx.pick(40, 400))
     for k in range(ctx.pick(6, 40)):
         r2 = random.Random(ctx.seed * 31 + k)
         yield (churn_session(r2, r2.choice([30, 60, 120] if ctx.quick else [30, 120, 750]), server_side=k % 2 == 1, srv=k % 3 == 2),
